@@ -486,6 +486,9 @@ fn c03(c: &mut Checker) {
     if c.found.is_empty() {
         crate::c14::first_report_linkage(c, &base, "H-first");
     }
+    if c.found.is_empty() {
+        crate::c14::first_report_linkage_json_source(c, "H-first");
+    }
 }
 
 fn c04(c: &mut Checker) {
